@@ -11,9 +11,13 @@
     for visibility); its ARGUMENTS are in turn, in order, copies of a sub-list of the source field's arguments with the same
     python name, default, description and type by name (`AAttr`);
   * whose INPUT FIELDS (input object) are likewise copies of a sub-list of `t0`'s.
-  Which members are missing is what the visitor targets (hidden fields / input fields, members of hidden types:
-  `visibility_hides_type`); camel-casing itself never drops a member (hook level: `camel_case_field_kept`, `camel_case_argument_kept`
-  always return a copy) — a per-schema statement that NO member is missing for camel-casing alone is not proved.
+  This is an UPPER bound (the members are copies of a SUB-list: nothing is added, nothing renamed otherwise, nothing reordered).
+  The LOWER bounds — what is not targeted IS there — are separate theorems: identity visitor / clone `clone_members_exact`,
+  `clone_refines`; camel-casing `camel_case_exact` (Props/C14_camel.lean: exact by-name view up to the renaming, none dropped);
+  visibility without hidden types `visibility_members_exact` (Props/C14_visible.lean: every member list is the source's FILTERED by
+  the predicate); what the predicates hide is absent: `visibility_hides_members`, `visibility_hides_directives`,
+  `directive_drops_fields` (Props/C14_hidden.lean). OPEN (named `VisibleMembersKept`, Props/C14_visible.lean): when TYPES are
+  hidden too, that every member not mentioning a hidden type survives the healing rounds is not proved.
   With `clone_frames_source`, `transform_closed`, `visibility_hides_type_transform` and `transform_preserves_untouched`
   this covers "never mutates its source, and yields a schema in which everything the transform did not touch is preserved".
 -/
